@@ -71,6 +71,9 @@ pub fn post_oneshot<L: Killed<N>, const N: usize>(l: &L, pre: &[Snap; N], is_err
 	}
 	if !is_err {
 		assert!(w.held == holds_on_ok || w.held == 0, "C04_ok_result_holds_all_or_nothing");
+	} else if !is_release(w.fault_op) {
+		// the call unwound out of an acquisition: the key is back in the caller's hands, so nothing may be held
+		assert!(w.held == 0, "C03_nothing_held_when_an_acquisition_unwinds");
 	}
 }
 
